@@ -481,6 +481,45 @@ theorem wrapped_inplace_overwrites (sem : Nat → List Int → Int) (v : InVal) 
     (call sem ⟨[.wrap 1 0, .inplace opMul 1 []], 1⟩ v).inputField = sem opMul [v.field] := by
   simp [call, exec, step, init, upd, bufOf, contents, InVal.obj]
 
+/-! ### `FourierFilter._operation` and the field styles (seeded class C06-10) -/
+
+/-- The shipped filter, with and without zero padding, is accepted on all three heaps (hence `safeAll_sound`: the
+caller's array, grid and Stokes vector are what they were, for every input and every meaning of the array operations). -/
+theorem fourierFilter_safeAll (padded : Bool) : safeAll (fourierFilter padded) = true := by
+  cases padded <;> decide
+
+/-- What the shipped filter hands to its first FFT, for every input value and every meaning of the array operations:
+a view of the caller's buffer exactly when there is no zero padding, and permission to overwrite exactly when
+there is — never both (this is the pair the harness observes on the running code). -/
+theorem fourierFilter_firstFft (sem : Nat → List Int → Int) (padded : Bool) (v : InVal) :
+    firstFft sem (fourierFilter padded) v = some (!padded, padded) := by
+  cases padded <;>
+    simp [firstFft, firstFftFrom, fourierFilter, step, init, upd, bufOf, contents, InVal.obj, opFft, opZeroPad]
+
+/-- The identity test `cast is not field` is right unless the cast is a new wrapper around the same buffer (a new-style
+field that already has the dtype) **and** nothing is padded: exactly then the program is rejected … -/
+theorem fourierFilterIdentityTestOld_safe_iff (c : Cast) (padded : Bool) :
+    safe (fourierFilterIdentityTestOld c padded) = (padded || c != .wrapper) := by
+  cases c <;> cases padded <;> decide
+
+/-- … which is the case `core.use_new_style_fields = True`, complex input, q = 1 … -/
+theorem fourierFilterIdentityTestOld_unsafe_newStyle :
+    safe (fourierFilterIdentityTestOld (castOf true true) false) = false := by decide
+
+/-- … and the old-style configuration hides it for every dtype and padding. -/
+theorem fourierFilterIdentityTestOld_safe_oldStyle (sameDtype padded : Bool) :
+    safe (fourierFilterIdentityTestOld (castOf false sameDtype) padded) = true := by
+  cases sameDtype <;> cases padded <;> decide
+
+/-- The rejected program hands its first FFT the caller's buffer with permission to overwrite, and the caller's field is
+its own unnormalised transform afterwards. -/
+theorem fourierFilterIdentityTestOld_overwrites (sem : Nat → List Int → Int) (v : InVal) :
+    firstFft sem (fourierFilterIdentityTestOld .wrapper false) v = some (true, true) ∧
+    (call sem (fourierFilterIdentityTestOld .wrapper false) v).inputField = sem opFft [v.field] := by
+  constructor <;>
+    simp [firstFft, firstFftFrom, fourierFilterIdentityTestOld, castInstr, call, exec, step, init, upd, bufOf, contents,
+      InVal.obj, opFft, opMul, opIfft]
+
 /-- an attribute overwritten and not restored is rejected. -/
 theorem unrestored_unsafe : safe ⟨[.setAttrConst 0 .wavelength 1, .newFrom 1 opProp [0] 0], 1⟩ = false := by decide
 
